@@ -16,8 +16,11 @@ RULE = ("Hypothesis cases: a simple polygon on the precision grid (convex, star-
         "inside the original; sum of piece areas = original area within perimeter x grid; the call returns. SLICE with "
         "sorted cut lists of 0-6 positions (below/at/above the bounding box, duplicates) on either axis: result has "
         "positions+1 bins and bin i holds exactly polygon ∩ strip i (sample test with the strip predicate, samples >= 2 "
-        "units from the cut lines). Non-trivial: vertices > 2 x limit (forces re-slicing) or >= 2 cuts strictly inside the "
-        "box; distinct by case hash")
+        "units from the cut lines). WRITER: a cell with such a polygon, a non-simple flexible path (round/miter/bevel joins, "
+        "round/half-width ends) and a non-simple robust path (segment, arc, segment) is saved with write_gds(max_points in "
+        "{0, 5..199}) and re-loaded: per element every polygon in the file has <= limit vertices, is on the file grid, and "
+        "the polygons partition the element's outline (same sample test with a 3-unit band, area identity). Non-trivial: vertices > 2 x limit (forces re-slicing) or >= 2 cuts strictly inside the "
+        "box or a writer case in which an outline was split; distinct by case hash")
 ASSUMPTIONS = ["pieces are judged up to the 2-grid-unit guard band (the statement says 'up to the rounding grid')",
                "for polygons with more than 400 vertices a deterministic subset of <= 200 sample candidates is used"]
 
@@ -280,16 +283,121 @@ def check_slice(ctx, case):
     ctx.stats.note(case, interior >= 2, ["slice", "axis_" + ("x" if x_axis else "y"), "cuts_%d" % len(cuts), "interior_cuts_%d" % min(interior, 3)])
 
 
+@st.composite
+def writer_case(draw, thorough):
+    """one cell holding the three kinds of element whose outlines Cell::to_gds splits when a vertex limit is given: a polygon,
+    a flexible path and a robust path that are not simple paths (written as their outlines, many vertices at round joins,
+    round ends and arcs); all three outlines are simple polygons by construction (gentle turns, segments much longer than wide)"""
+    poly = draw(big_polygon(False))
+    bx, by = min(p[0] for p in poly), min(p[1] for p in poly)
+    sx, sy = draw(st.integers(-500, 500)), draw(st.integers(-500, 500))
+    poly = [[p[0] - bx + sx, p[1] - by + sy] for p in poly]          # 32-bit file coordinates: back to the origin
+    limit = draw(st.sampled_from([0, 5, 5, 6, 7, 8, 10, 12, 20, 50, 199]))
+    ang = draw(st.sampled_from([0.0, 0.5, 1.5, 3.0, -2.0]))
+    x, y = 0.0, 100000.0
+    spine = [[x, y]]
+    for _ in range(draw(st.integers(1, 4))):
+        L = draw(st.integers(300, 800))
+        x, y = x + L * math.cos(ang), y + L * math.sin(ang)
+        spine.append([float(round(x)), float(round(y))])
+        ang += draw(st.sampled_from([-1.0, -0.5, 0.4, 0.9]))
+    fp = {"spine": spine, "w": float(draw(st.sampled_from([20, 40, 60]))), "join": draw(st.sampled_from([0, 1, 2, 3, 3])),
+          "end": draw(st.sampled_from([0, 1, 1, 2])), "tol": draw(st.sampled_from([0.05, 0.2]))}
+    rp = {"start": [0.0, 200000.0], "w": float(draw(st.sampled_from([10, 20, 40]))), "end": draw(st.sampled_from([0, 1, 1, 2])),
+          "tol": draw(st.sampled_from([0.05, 0.2])), "seg0": float(draw(st.integers(100, 400))), "r": float(draw(st.integers(80, 300))),
+          "da": draw(st.sampled_from([0.7, 1.2, 2.0])), "seg1": float(draw(st.integers(0, 300)))}
+    return {"op": "writer", "poly": poly, "limit": limit, "fp": fp, "rp": rp}
+
+
+def check_writer(ctx, case):
+    g = 1e-3           # unit 1e-6, precision 1e-9: the file grid in user units
+    limit = case["limit"]
+    poly = [tuple(p) for p in case["poly"]]
+    fp, rp = case["fp"], case["rp"]
+    path = ctx.path("c12.gds")
+    lines = ["poly new p 1 0 %d %s" % (len(poly), " ".join(fl(c * g) for q in poly for c in q)),
+             "fp new f %s %s 1 %s 0 1 %s %s 2 0" % (fl(fp["spine"][0][0] * g), fl(fp["spine"][0][1] * g), fl(fp["tol"] * g), fl(fp["w"] * g), fl(0.0)),
+             "fp elem f 0 %d %d %s %s 0 0" % (fp["join"], fp["end"], fl(0.0), fl(0.0)),
+             "fp seg f 0 %d %s - -" % (len(fp["spine"]) - 1, " ".join(fl(c * g) for q in fp["spine"][1:] for c in q)),
+             "fp topoly f 0 0 0 -",
+             "rp new r %s %s 1 %s 1000 0 1 %s %s 3 0" % (fl(rp["start"][0] * g), fl(rp["start"][1] * g), fl(rp["tol"] * g), fl(rp["w"] * g), fl(0.0)),
+             "rp elem r 0 %d %s %s" % (rp["end"], fl(0.0), fl(0.0)),
+             "rp seg r 1 %s %s - -" % (fl(rp["seg0"] * g), fl(0.0)),
+             "rp arc r %s %s %s %s 0 - -" % (fl(rp["r"] * g), fl(rp["r"] * g), fl(-math.pi / 2), fl(-math.pi / 2 + rp["da"]))]
+    if rp["seg1"] > 0:
+        lines.append("rp seg r 1 %s %s - -" % (fl(rp["seg1"] * math.cos(rp["da"]) * g), fl(rp["seg1"] * math.sin(rp["da"]) * g)))
+    lines += ["rp topoly r 0 0 0 -", "cell new c %s" % hx("TOP"), "cell add c poly p", "cell add c fp f", "cell add c rp r",
+              "lib new l %s %s %s" % (hx("L"), fl(1e-6), fl(1e-9)), "lib add l c",
+              "io write_gds l %s %d" % (path, limit), "io read_gds R %s 0 %s N" % (path, fl(1e-4)), "dump lib R"]
+    outs = ctx.run(lines, case)
+    tops = [o for o in outs if isinstance(o, dict) and "result" in o and "err" in o]
+    dump = [o for o in outs if isinstance(o, dict) and "lib" in o][0]["lib"]
+    wr = [o for o in outs if isinstance(o, dict) and "err" in o and "result" not in o]
+    for o in wr:
+        if o["err"] != 0:
+            raise Violation("write_gds / read_gds returned error %d" % o["err"], case, 0, o["err"], lines)
+    if len(tops) != 2 or any(o["err"] != 0 or len(o["result"]) != 1 for o in tops):
+        raise Violation("the outline of a path could not be taken", case, None, [(o["err"], len(o["result"])) for o in tops], lines)
+    originals = {1: [(float(x), float(y)) for x, y in poly],
+                 2: [(x / g, y / g) for x, y in tops[0]["result"][0]["pts"]],
+                 3: [(x / g, y / g) for x, y in tops[1]["result"][0]["pts"]]}
+    got = {1: [], 2: [], 3: []}
+    for q in dump["cells"][0]["polygons"]:
+        if q["tag"][0] not in got or q["tag"][1] != 0:
+            raise Violation("a re-loaded polygon has tag %s" % q["tag"], case, None, q["tag"], lines)
+        got[q["tag"][0]].append(q)
+    labels = ["writer", "limit_%d" % limit]
+    split_any = False
+    for layer, what in ((1, "polygon"), (2, "flexible path outline"), (3, "robust path outline")):
+        orig = originals[layer]
+        pieces, worst = gk.to_int_polys(got[layer], 1.0 / g)
+        if worst > 1e-6:
+            raise Violation("%s: a re-loaded vertex is off the file grid (residue %g)" % (what, worst), case, 0, worst, lines)
+        if not pieces:
+            raise Violation("%s: nothing was written" % what, case, ">= 1 polygon", 0, lines)
+        if limit > 4:
+            for pc in pieces:
+                if len(pc) > limit:
+                    raise Violation("%s written with vertex limit %d: a piece in the file has %d vertices" % (what, limit, len(pc)), case, limit, len(pc), lines)
+        elif len(pieces) != 1:
+            raise Violation("%s written without a vertex limit came back as %d polygons" % (what, len(pieces)), case, 1, len(pieces), lines)
+        n = len(orig)
+        if len(pieces) > 1:
+            split_any = True
+            labels.append("split_%s" % what.split()[0])
+        oi = [(int(round(x)), int(round(y))) for x, y in orig]
+        samples, ncand = pick_samples([oi] + (pieces if len(pieces) < 40 else []), [oi] + pieces, band=3)
+        for (x, y) in samples:
+            inside = gk.winding(orig, x, y) != 0
+            cover = sum(1 for pc in pieces if len(pc) >= 3 and gk.winding(pc, x, y) != 0)
+            if inside and cover != 1:
+                raise Violation("%s, vertex limit %d: point %s inside the original (%d vertices) is covered by %d of the %d polygons in the file" %
+                                (what, limit, (x, y), n, cover, len(pieces)), case, 1, cover, lines)
+            if not inside and cover != 0:
+                raise Violation("%s, vertex limit %d: point %s outside the original is covered by %d polygons in the file" % (what, limit, (x, y), cover),
+                                case, 0, cover, lines)
+        a0 = abs(sum(orig[i][0] * orig[(i + 1) % n][1] - orig[(i + 1) % n][0] * orig[i][1] for i in range(n))) / 2.0
+        a1 = sum(abs(gk.area2(pc)) for pc in pieces) / 2.0
+        tol = gk.perimeter(oi) + sum(gk.perimeter(pc) for pc in pieces) + 4
+        if abs(a0 - a1) > tol:
+            raise Violation("%s, vertex limit %d: the polygons in the file have total area %r, the original %r" % (what, limit, a1, a0), case, a0, a1, lines)
+        ctx.stats.count("writer_samples", len(samples))
+    ctx.stats.note(case, split_any, labels)
+
+
 def check(ctx, case):
     if case["op"] == "fracture":
         return check_fracture(ctx, case)
+    if case["op"] == "writer":
+        return check_writer(ctx, case)
     return check_slice(ctx, case)
 
 
 def run_worker(ctx):
     q = ctx.tier == "quick"
     vs = []
-    for name, strat, total in (("fracture", fracture_case(not q), 6000 if q else 20000), ("slice", slice_case(not q), 6000 if q else 20000)):
+    for name, strat, total in (("fracture", fracture_case(not q), 6000 if q else 20000), ("slice", slice_case(not q), 6000 if q else 20000),
+                               ("writer", writer_case(not q), 1500 if q else 10000)):
         v = ctx.hypothesis(check, strat, ctx.share(total), name)
         if v:
             vs.append(v)
